@@ -1,6 +1,81 @@
-import BR.Model.Disk
+import BR.Lemmas.DiskProxy
+import BR.Lemmas.Toy
+import BR.Bridge.Disk
+import BR.Bridge.Blob
+/-!
+# C01 — CAS uploads are acknowledged only if bytes match the digest, on every write path
+
+All ten write paths end in `diskCache.Put` (M4), which for compressed storage calls
+`casblob.WriteAndClose` (M2) and for uncompressed storage the `sha256verifier`.  SHA-256 is the
+opaque function `H`; "acknowledged ⇒ `H data = declared`" is what the theorems state (no collision
+resistance is needed).  The per-path plumbing (which size / hash / reader each handler hands to
+`Put`) is tied by the server-level correspondence runs and Bridge facts of M10/M11.
+-/
 namespace BR.Props.C01
-open BR.Disk
-theorem placeholder : emptyZstdBlob.length = 9 := by decide
-#print axioms placeholder
+open BR.Disk BR.Lru BR.CasBlob
+
+/-- **compressed storage**: `WriteAndClose` succeeds **iff** the declared size is positive, the
+stream delivered exactly that many bytes and then a clean EOF, and they hash to the declared digest.
+Flipped, truncated or extended data, a wrong declared size or hash, trailing bytes, a stream aborted
+part-way: all are errors. -/
+theorem writeAndClose_ack_iff (C : Codec) (H : Bytes → String) (cs : Nat) (hcs : 0 < cs) (s : Stream) (size : Int)
+    (hash : String) :
+    (∃ n, (writeAndClose C H cs s size hash).result = .ok n) ↔
+      (0 < size ∧ s.fault = false ∧ (s.data.length : Int) = size ∧ H s.data = hash) :=
+  write_ok_iff C H cs hcs s size hash
+
+/-- **Put, both storage modes, all key spaces**: an OK answer implies the size is within
+`[0, max_blob_size]`, the hash has 64 characters, and either it is the (never stored) empty CAS
+blob or the stream ended cleanly after exactly `size` bytes that — for CAS — hash to the digest. -/
+theorem put_ack_only_if (C : Codec) (H : Bytes → String) (d : Disk) (hcs : 0 < d.cfg.chunkSize) (kind : Kind)
+    (hash : String) (size : Int) (s : Stream) (rnd : String)
+    (hok : (put C H d kind hash size s rnd).2 = .ok) :
+    0 ≤ size ∧ size ≤ d.cfg.maxBlobSize ∧ hash.length = 64 ∧
+    ((kind = .cas ∧ size = 0 ∧ hash = emptySha256) ∨
+     (s.fault = false ∧ (s.data.length : Int) = size ∧ (kind = .cas → H s.data = hash))) :=
+  BR.Disk.put_ack_only_if C H d hcs kind hash size s rnd hok
+
+/-- **every other upload does not make the claimed digest present**: a Put that is not
+acknowledged leaves the directory unchanged and adds no entry to the index (entries can only move
+to the removal queue, when the reservation evicted them). -/
+theorem put_nack_stores_nothing (C : Codec) (H : Bytes → String) {d : Disk} (h : DiskInv d) (kind : Kind)
+    (hash : String) (size : Int) (s : Stream) (rnd : String)
+    (hno : (put C H d kind hash size s rnd).2 ≠ .ok) :
+    (put C H d kind hash size s rnd).1.files = d.files ∧
+    (tracked (put C H d kind hash size s rnd).1.lru).Perm (tracked d.lru) :=
+  put_nack_unchanged C H h kind hash size s rnd hno
+
+/-- what an acknowledged compressed upload leaves on disk is a conformant blob of exactly the
+uploaded bytes, which every reader returns unchanged (C02) -/
+theorem acked_blob_is_readable (C : Codec) (hl : C.Lawful) (H : Bytes → String) (cs : Nat) (hcs : 0 < cs)
+    (hcs2 : cs < 4294967296) (s : Stream) (size : Int) (hash : String)
+    (hok : 0 < size ∧ s.fault = false ∧ (s.data.length : Int) = size ∧ H s.data = hash)
+    (hsize : size < 9223372036854775808) :
+    let pairs := (fillChunks (wantLens size.toNat cs) s.data).1.map (fun c => (C.enc c, c))
+    let final := encodeHeader (hdrOf cs pairs) ++ (framesOf pairs).flatten
+    (writeAndClose C H cs s size hash).images.getLast? = some final ∧ dataOf pairs = s.data ∧
+    ((final.length : Int) < 9223372036854775808 → 8 * (pairs.length + 1) + 21 < 4294967296 →
+      ∀ off, off < s.data.length → readRaw C final (-1) (off : Int) = .ok (s.data.drop off, true)) := by
+  have hw := write_final_conformant C hl H cs hcs hcs2 s size hash hok hsize
+  refine ⟨hw.2.1, hw.2.2.1, ?_⟩
+  intro h1 h2 off hoff
+  have hc := hw.2.2.2 h1 h2
+  have := readRaw_conformant hl hc off (by rw [hw.2.2.1]; exact hoff) (-1) (Or.inl rfl)
+  rw [hw.2.2.1] at this
+  exact this
+
+/-! non-vacuity: an exact upload is acknowledged, a truncated one is not (toy codec, identity hash) -/
+def hA : String := "aaaaaaaaaaaaaaaaaaaaaaaaaaaaaaaaaaaaaaaaaaaaaaaaaaaaaaaaaaaaaaaa"
+def cfgZ : Cfg := { mode := .zstd, maxBlobSize := 1000000, maxProxyBlobSize := 1000000, hasProxy := false, chunkSize := 2 }
+def Hc : Bytes → String := fun b => if b = [1, 2, 3] then hA else "other"
+
+example : (put ToyU.codec Hc (init cfgZ 40960 0) .cas hA 3 ⟨[1, 2, 3], false⟩ "r").2 = .ok ∧
+    (put ToyU.codec Hc (init cfgZ 40960 0) .cas hA 3 ⟨[1, 2], false⟩ "r").2 = .e500 ∧
+    (put ToyU.codec Hc (init cfgZ 40960 0) .cas hA 3 ⟨[1, 2, 4], false⟩ "r").2 = .e500 ∧
+    (put ToyU.codec Hc (init cfgZ 40960 0) .cas hA 3 ⟨[1, 2, 3, 4], false⟩ "r").2 = .e500 := by decide +kernel
+
+#print axioms writeAndClose_ack_iff
+#print axioms put_ack_only_if
+#print axioms put_nack_stores_nothing
+#print axioms acked_blob_is_readable
 end BR.Props.C01
